@@ -164,6 +164,11 @@ inline CaseState RandomState(Rng& g, const StateGenOpts& o = {}) {
     }
     s["prpage"] = 0;
     s["mod0_unk_const"] = 1;
+    if (g.chance(1, 3)) { // shift-amount register: boundary amounts of the 40-bit shifter
+        static const s64 amounts[] = {0, 1, 2, 15, 16, 17, 31, 32, 33, 38, 39, 40, 41, 47, 48, 63, 64, 127, 128, 0x7FFF};
+        s64 a = g.pick(amounts);
+        s["sv"] = (u64)((g.chance(1, 2) ? a : -a) & 0xFFFF);
+    }
     s["pc"] = o.any_pc ? g.below(0x3FFFE) : o.pc;
     if (o.loops) {
         u64 bcn = g.below(5);
